@@ -6,7 +6,8 @@ import re
 from vlib import core
 from checks import thr_common as T
 
-TYPES = ["z", "u8", "u128", "arr", "a64", "vec", "dv"]
+TYPES = ["z", "u8", "u128", "arr", "a64", "vec", "dv", "zd", "a64d", "arrd"]
+DROP_COUNTED = ("dv", "zd", "a64d", "arrd")     # result types whose destructor reports itself
 
 
 class Finding:
@@ -37,7 +38,7 @@ class Finding:
             sig["fin"] = t.fin_plan
             if t.fin_plan == "panic" and t.pk in LOCK_HOLDING:
                 sig["panic_holds"] = "print lock"
-            if self.rule in ("result_not_dropped", "join_wrong_value"):
+            if self.rule in ("result_not_dropped", "result_dropped_twice", "join_wrong_value"):
                 sig["ty"] = t.ty
         sig["mode"] = self.run.mode
         return sig
@@ -171,7 +172,7 @@ def free_running(chk, col, bindir, tier, release=False, tag=""):
     r.release = release
     col.add(r, "free")
     # 2. mixed batches, traced, full allocator log
-    n = 250 if tier == "quick" else 1500
+    n = 150 if tier == "quick" else 1500
     script = ["baseline",
               "batch n=%d seed=%d conc=8 panic=25 drop=40" % (n, seed * 7 + 1), "quiesce",
               "batch n=%d seed=%d conc=1 panic=20 drop=50" % (n, seed * 7 + 2), "quiesce",
@@ -187,7 +188,7 @@ def perturbed(chk, col, bindir, tier, release=False, tag=""):
     the process confined to one / two CPUs (preemption-driven interleavings); traced, full logs, so the
     runs are judged at property level AND searched for in the algorithm-level model"""
     seed = chk.seed
-    n = 150 if tier == "quick" else 600
+    n = 100 if tier == "quick" else 600
     plans = [("jit300", "set jitter=300 jseed=%d" % (seed * 13 + 5), None)]
     if tier != "quick":
         plans += [("jit900", "set jitter=900 jseed=%d" % (seed * 13 + 6), None),
@@ -206,7 +207,7 @@ def big_batches(chk, col, bindir, tier, release=False, tag=""):
     """histories of thousands of threads, free running, no tracer: heap multiset / thread count /
     VmSize back at baseline after each batch"""
     seed = chk.seed
-    n = 1500 if tier == "quick" else 12000
+    n = 1000 if tier == "quick" else 12000
     reps = 2 if tier == "quick" else 4
     script = ["set logalloc=0 logpt=0", "baseline"]
     for i in range(reps):
@@ -239,7 +240,7 @@ def directed_stray(chk, col, bindir, tier, release=False, tag=""):
     then everybody runs free.  {thread returns, panics} x {held where} x {join, drop}."""
     cases = []
     # drop: the thread must have won the flag (past its CAS) and still be alive
-    for ty, hold in (("dv", "15"), ("vec", "16"), ("u8", "15")):
+    for ty, hold in (("dv", "15"), ("vec", "16"), ("zd", "15")):
         cases.append(("s1:%s:r;d1" % ty, "h>60,t1>%s,h>p,w,h>p" % hold))
     cases.append(("s1:u128:p;d1", "h>60,t1>25,h>p,w,h>p"))
     # join: the thread is anywhere before its exit
@@ -335,7 +336,7 @@ def explore_handshake(chk, col, bindir, tier, release=False, tag=""):
     goes through the AtomicBool shim of tiny_std::verif_thread: one yield point per access, whatever
     operations an implementation uses).  Every schedule is one execution between its own baseline and
     quiesce, judged at property level."""
-    scen = ["s1:dv:r;d1", "s1:vec:r;d1", "s1:u8:p;d1", "s1:u128:r;j1"]
+    scen = ["s1:dv:r;d1", "s1:zd:r;d1", "s1:vec:r;d1", "s1:u8:p;d1", "s1:a64d:r;j1"]
     if tier != "quick":
         scen += ["s1:a64:p;j1", "s1:dv:r;s2:vec:r;d1;d2", "s1:vec:r;s2:u8:p;d2;j1"]
     script = ["set watchdog=4000"] + ["explore ops=%s max=%d" % (o, 48 if tier == "quick" else 160) for o in scen]
@@ -354,7 +355,7 @@ def drop_race(chk, col, bindir, tier, release=False, tag=""):
     handle operation falls around the thread's own hand-shake; nothing is logged per thread (the race
     window must stay narrow), judged by the process-level rules at quiescence (live-block multiset back
     at baseline, no bad free, no thread left)."""
-    n = 2500 if tier == "quick" else 20000
+    n = 1600 if tier == "quick" else 20000
     script = ["set logalloc=0 logpt=0 watchdog=6000", "baseline"]
     for i, spin in enumerate((0, 40, 200, 1000)):
         script += ["race n=%d seed=%d spin=%d drop=85" % (n // 4, chk.seed * 53 + i, spin), "quiesce"]
